@@ -151,16 +151,19 @@ namespace hmac_cpp {
             iterations > MAX_PBKDF2_ITERATIONS)
             return false;
 
-        TypeHash hash_type = to_type_hash(prf);
+        TypeHash hash_type = TypeHash::SHA256;
         size_t hlen = 0;
-        switch (hash_type) {
-            case TypeHash::SHA1:
+        switch (prf) {
+            case Pbkdf2Hash::Sha1:
+                hash_type = TypeHash::SHA1;
                 hlen = hmac_hash::SHA1::DIGEST_SIZE;
                 break;
-            case TypeHash::SHA256:
+            case Pbkdf2Hash::Sha256:
+                hash_type = TypeHash::SHA256;
                 hlen = hmac_hash::SHA256::DIGEST_SIZE;
                 break;
-            case TypeHash::SHA512:
+            case Pbkdf2Hash::Sha512:
+                hash_type = TypeHash::SHA512;
                 hlen = hmac_hash::SHA512::DIGEST_SIZE;
                 break;
             default:
